@@ -248,7 +248,7 @@ class Recorder:
                         i = rec.n_sample_batch
                         rec.n_sample_batch += 1
                         if i == rec.fault.get("sampler"):
-                            raise InjectedFault(f"sampler call {i}")
+                            raise FLAVOURS[rec.fault.get("exc")](f"sampler call {i}")
                         return orig(self_, *a, **k)
                     return sample_batch
 
@@ -265,7 +265,7 @@ class Recorder:
                     i = len(rec.loss_calls)
                     if rec.fault.get("loss") == i:
                         rec.loss_calls.append(None)
-                        raise InjectedFault(f"loss call {i}")
+                        raise FLAVOURS[rec.fault.get("exc")](f"loss call {i}")
                     sim_before = np.array(sim).copy()
                     val = orig(self_, sim, real)
                     rec.loss_calls.append({"sim": sim_before, "sim_after_equal": np.array_equal(sim_before, sim, equal_nan=True), "val": val})
@@ -302,3 +302,15 @@ class Recorder:
 
 class InjectedFault(Exception):
     pass
+
+
+class InjectedStop(StopIteration):
+    """A StopIteration escaping from user code (`next(x for x in ... if cond)` finding nothing): swallowed by any enclosing
+    list(map(...)) / generator / zip, so it tells whether the caller iterates lazily around the user's code."""
+
+
+class InjectedExit(SystemExit):
+    """sys.exit() called inside user code: a BaseException that is neither an Exception nor a KeyboardInterrupt."""
+
+
+FLAVOURS = {None: InjectedFault, "error": InjectedFault, "stop": InjectedStop, "exit": InjectedExit}
